@@ -4,6 +4,7 @@
 //  (B) the rational basis-inverse queries of SoPlex on every basis reached by exact solves of a tiny-LP family,
 //      again after each cache-invalidating modification.
 #include "vx_spx.hpp"
+#include <set>
 using namespace vx;
 
 static Rational to_spx(const Q& q) { return Rational(q.get_mpq_t()); }
@@ -404,6 +405,23 @@ static std::string check_basis_inverse(SoPlex& spx, const XLP& lp, Ctx& c, const
          B[r][k] = 1;
       }
    }
+   {
+      // the rational basis indices must name the basis the solver currently holds: the BASIC set of getBasis() (a cached factorisation of an earlier basis would be
+      // consistent with its own index array, so only this comparison exposes it)
+      std::vector<SPxSolver::VarStatus> rs(m + 1), cs(n + 1);
+      spx.getBasis(rs.data(), cs.data());
+      std::set<int> a, b;
+      for(int k = 0; k < m; ++k) a.insert(bind[k]);
+      for(int i = 0; i < m; ++i) if(rs[i] == SPxSolver::BASIC) b.insert(-1 - i);
+      for(int j = 0; j < n; ++j) if(cs[j] == SPxSolver::BASIC) b.insert(j);
+      if(a != b)
+      {
+         std::string sa, sb;
+         for(int v : a) sa += std::to_string(v) + " ";
+         for(int v : b) sb += std::to_string(v) + " ";
+         return "getBasisIndRational names { " + sa + "} but the BASIC variables of getBasis() are { " + sb + "} " + when;
+      }
+   }
    QMat Inv;
    if(!qinverse(B, Inv)) return "rational basis reported as factorised but B is singular " + when;
    c.count("bases_checked");
@@ -436,9 +454,12 @@ static std::string check_basis_inverse(SoPlex& spx, const XLP& lp, Ctx& c, const
 }
 
 static const char* INVAL_OPS[] = {"none", "changeElementRational(0,0,5/3)", "changeElementReal(0,0,2)", "addRowReal", "removeRowReal(last)", "addColReal",
-                                  "changeRowReal(0)", "changeColRational(0)", "changeBoundsReal(0)", "clearBasis+optimize"
+                                  "changeRowReal(0)", "changeColRational(0)", "changeBoundsReal(0)", "clearBasis+optimize",
+                                  // objective-only changes leave the basis matrix alone (the cached factorisation may stay) - but the warm-started re-solve that follows pivots to
+                                  // another basis, and the queries must then describe THAT basis
+                                  "changeObjReal(negated)", "changeObjRational(reversed)"
                                  };
-static const int NINVAL = 10;
+static const int NINVAL = 12;
 
 static uint64_t run_lp(const TinyLP& t, int op, Ctx& c)
 {
@@ -510,6 +531,8 @@ static uint64_t run_lp(const TinyLP& t, int op, Ctx& c)
       break;
    case 8: if(n > 0) { spx.changeBoundsReal(0, -1.0, 2.0); lp.lo[0] = Ext(Q(-1)); lp.up[0] = Ext(Q(2)); } break;
    case 9: spx.clearBasis(); spx.optimize(); break;
+   case 10: for(int j = 0; j < n; ++j) { lp.c[j] = -lp.c[j] - (j == 0 ? 1 : 0); spx.changeObjReal(j, lp.c[j].get_d()); } break;
+   case 11: for(int j = 0; j < n; ++j) { Q v = lp.c[n - 1 - j] * 2 + qq(j + 1, 3); spx.changeObjRational(j, to_spx(v)); } for(int j = 0; j < n; ++j) lp.c[j] = from_spx(spx.objRational(j)); break;
    }
    c.count(std::string("op.") + INVAL_OPS[op]);
    if(!spx.hasBasis()) { c.count("basis_dropped_by_op"); return 5; }
@@ -555,7 +578,7 @@ int main(int argc, char** argv)
    }
    bool thorough = args.tier == "thorough";
    const uint64_t thin = (args.tier == "thorough") ? 1 : 3;   // quick: every 3rd matrix of the 3x3 family (whole harness runs under ASan)
-   Report rep(args, "exploration", thorough ? 2400 : 300);
+   Report rep(args, "exploration", thorough ? 2400 : 600);
    RunOpts o = rep.opts();
    o.perturb = {85};
    auto A6 = ALPHA6();
